@@ -713,8 +713,9 @@ def run(ctx):
               "stage of a line = position relative to the function's wrapper try, computed from the AST (c01_layers.py)",
               "log records and third-party warnings copied to stderr by logging.lastResort / warnings are not counted as "
               "diagnostic lines (only lines starting with 'sharepoint2text: ')",
-              "Zip!MemberErrorKillsArchive (a member that cannot be READ ends a ZIP archive) is C10's finding; for C01 both "
-              "behaviours are inside the family and the archive loop is an internal layer (DON'T-CARE)")
+              "what a member that cannot be READ does to its archive (Zip!MemberErrorKillsArchive, repaired under C10; 7z "
+              "KF-C10-01) is C10's question; for C01 both behaviours are inside the family and the archive loop is an "
+              "internal layer (DON'T-CARE)")
 
 
 def _explain(bad, m, r):
